@@ -126,7 +126,7 @@ def obligation(name, config, K, kind):
         vals, S, cs, opargs = build(config, K, allow_selfneq=allow_nan)
         V = vals.V
         s = z3.Solver()
-        s.set("timeout", 600000)
+        s.set("timeout", 300000)
         s.add(*cs)
         final = S.st[K]
         vf = S.const("init__validator")
